@@ -58,6 +58,18 @@ META = {
         note="Aliasing through objects with adversarial dunder methods is excluded (A3). Each zero-count detector is shown to fire on /verif/fixtures/purity on every run.",
         ref="5 C12",
     ),
+    "C17": dict(
+        technique="path enumeration of the CLI handlers with call-event/fact matching, argparse registry extraction, entry-point statement dataflow (value of cli() must reach sys.exit), call-graph cone for signing handlers",
+        text="Every path of the verify-metadata handler that can yield exit status 0 follows a successful verify_root / verify_delegation call chosen by the untrusted file's declared type, with the files bound as the parser declares them; all other returns are non-zero constants; cli() passes the handler's value through; each of the three entry points feeds it to sys.exit; signing handlers return a zero status only after the signer returned.",
+        note="The installer-generated console-script wrapper is assumed to be sys.exit(cli()) (A7; cross-checked against /venv/bin in the thorough tier). What is printed is not checked, only the status.",
+        ref="5 C17",
+    ),
+    "C18": dict(
+        technique="typestate/ordering analysis over event sequences of all paths (failing ones included) of the in-place signers with I/O callees inlined",
+        text="On every path of sign_all_in_repodata and sign_root_metadata_via_gpg the first write-mode open (or other mutation) of the target file comes after every operation that can raise; inside the write phase only writes of previously computed bytes occur; no write inside a loop; no second write phase; the serializer precedes the open; the CLI's key gate dominates the signer call. A failure at any earlier point therefore leaves the file untouched.",
+        note="Failures of the final write() itself (disk full) are outside the property's scope (A6).",
+        ref="5 C18",
+    ),
     "C13": dict(
         technique="exception-escape analysis (path-sensitive fact propagation + conditional summaries) over an ast-resolved program; call-graph acyclicity; custom rules",
         text="Static exception-escape analysis of all 24 public validators and 5 verifiers on every control-flow path: the escape set of each is within the documented families, named rejections carry the named classes, no while/recursion/mutated-iterable loops. Holds for every input because values are abstracted to guard facts; a new unguarded subscript, narrowed handler, assert-as-validation or foreign raise is reported with its call chain.",
